@@ -71,7 +71,7 @@ class Engine:
     def start(self):
         self.pos = 0             # position in the persistent decision stack
         self.solver = z3.Solver()
-        self.solver.set("timeout", 60_000)
+        self.solver.set("timeout", 20_000)
         self.choices = []        # values of choose() on this path (replay)
         self.inputs = {}
         self.overflow = []
@@ -85,6 +85,15 @@ class Engine:
         r = self.solver.check()
         m = self.solver.model() if r == z3.sat else None
         self.solver.pop()
+        if r == z3.unknown:
+            # the incremental solver gave up: one-shot solver (full
+            # preprocessing) on the same assertions, larger budget
+            s2 = z3.Solver()
+            s2.set("timeout", 300_000)
+            s2.add(*self.solver.assertions())
+            s2.add(*cs)
+            r = s2.check()
+            m = s2.model() if r == z3.sat else None
         self.tq += time.time() - t
         return r, m
 
